@@ -11,7 +11,7 @@ PRESETS = {"default": "DefaultTable", "octet_rule": "OctetTable", "hypervalent":
 
 C01_INVARIANTS = ["InvValence", "InvCapIsTable", "InvStateBound", "InvNoSelfBond", "InvNoDoubleEdge",
                   "InvOrdersLegal", "InvChainForward", "InvLabelsLegal", "InvLabelsPaired",
-                  "InvRingsClosed", "InvBalanced", "InvNoEmptyBranch", "InvAllWritten", "InvAdjMeaning"]
+                  "InvRingsClosed", "InvBalanced", "InvNoEmptyBranch", "InvAllWritten", "InvAdjMeaning", "InvBcMeaning", "InvFastEquiv"]
 
 
 def table_expr(table):
